@@ -73,6 +73,23 @@ pub fn snapshot_opt(p: &Airplanes, views: bool) -> Snapshot {
         }
         s.insert(a, r);
     }
+    if views {
+        // the text view as a whole: nothing but those lines, in address order, each ended by a newline
+        let mut whole = String::new();
+        for (k, _) in p.iter() {
+            if let Some(d) = p.aircraft_details(*k) {
+                whole += &format!("{k}: {d:?}\n");
+            }
+        }
+        if whole != text {
+            if let Some(r) = s.values_mut().next() {
+                if r.display_mismatch.is_none() {
+                    let extra: String = text.chars().take(120).collect();
+                    r.display_mismatch = Some(format!("(the text view as a whole, {} bytes, is not the lines of the aircraft with details, {} bytes; it starts {extra:?})", text.len(), whole.len()));
+                }
+            }
+        }
+    }
     s
 }
 
